@@ -2,6 +2,7 @@ package reasm
 
 import (
 	"fmt"
+	"math"
 	"testing"
 	"time"
 
@@ -15,7 +16,7 @@ import (
 var hC01 = hx.New("C01", "rapid-generated call histories (config: maxInFlight 0..6 x timeout {-1s,0,200us,1h}; 1..60 ops PushMessage / Push(raw) / Push(malformed) / PushMessage(nil) / Maintain / sleep, then Close) over arbitrary uint32 sequences (pools with duplicates, re-use after eviction, values > 2^24 apart, the 2^32 seam) and windowed sequences; oracle: message identity (pointer for PushMessage, nonce in the raw text for Push) against the list of messages pushed per sequence since its last delivery. Non-trivial = history with an event of >= 2 records and at least one of: eviction of an incomplete event, re-used sequence, Push-parsed record, EOE completion; distinct by hash of the history")
 
 var c01Cfg = genCfg{
-	timeouts: []time.Duration{-time.Second, 0, 200 * time.Microsecond, time.Hour, time.Hour},
+	timeouts: []time.Duration{-time.Second, 0, 200 * time.Microsecond, time.Hour, time.Hour, time.Duration(math.MaxInt64), time.Duration(math.MinInt64)},
 	maxMax:   6, maxOps: 60, sleeps: []int{400}, raw: true, nilPush: true, endClose: true, gapBias: true,
 }
 
